@@ -28,10 +28,19 @@ type Case struct {
 	Method string `json:"m"`
 	Recv   []V    `json:"recv,omitempty"`
 	RecvS  string `json:"s,omitempty"`
-	Args   []V    `json:"args"`         // arguments as written (after the callback for reduce); shorter = omitted
-	Cb     string `json:"cb,omitempty"` // callback id
+	Args   []V    `json:"args"`           // arguments as written (after the callback for reduce); shorter = omitted
+	Cb     string `json:"cb,omitempty"`   // callback id
 	Site   string `json:"site,omitempty"` // "" top level | func | method  (where the call is written)
 	Prop   bool   `json:"prop,omitempty"` // `->length` property instead of `->length()`
+
+	// storage-aliasing streams (alias.go)
+	Dec   string `json:"dec,omitempty"`   // kind fx: what the traced callback returns
+	Form  string `json:"form,omitempty"`  // kind fx: "" function literal | fn arrow function (no trace, no effects) | var closure held in a variable
+	Cap   bool   `json:"cap,omitempty"`   // kind fx: the callback captures the receiver by reference and reports it at every invocation
+	Fx    []Fx   `json:"fx,omitempty"`    // kind fx: effects inside the callback
+	Keep  int    `json:"keep,omitempty"`  // kind fx: 1 + invocation whose array argument and element are kept in outer variables
+	Post  []Fx   `json:"post,omitempty"`  // kind fx: effects after the call
+	Chain string `json:"chain,omitempty"` // in-place method applied to the returned temporary
 
 	skipModel bool // outside what the Lean model covers (non-ASCII case mapping): reference only
 }
@@ -146,6 +155,9 @@ func stringResult(m string) bool {
 
 // body: the statements of one case, receiver in $x
 func (c *Case) body() string {
+	if c.Kind == "fx" {
+		return c.fxBody()
+	}
 	var call string
 	args := phpArgs(c.Args)
 	if c.Kind == "arr" {
@@ -168,6 +180,9 @@ func (c *Case) body() string {
 	expr := "$x->" + c.Method + "(" + call + ")"
 	if c.Method == "length" && (c.Kind == "arr" || c.Prop) {
 		expr = "$x->length"
+	}
+	if c.Kind == "arr" && c.Chain != "" {
+		expr += "->" + c.Chain + "(" + phpArgs(chainArgs(c.Chain)) + ")"
 	}
 	enc := "'J', json_encode($r)"
 	if c.Kind == "str" && stringResult(c.Method) {
@@ -207,6 +222,9 @@ func (c *Case) block(idx int) string {
 // ------------------------------------------------------------ model line / canonical forms
 
 func (c *Case) modelLine() string {
+	if c.Kind == "fx" {
+		return c.fxModelLine()
+	}
 	if c.Kind == "str" {
 		return "str\t" + c.Method + "\t" + hex.EncodeToString([]byte(c.RecvS)) + "\t" + toks(c.Args)
 	}
@@ -214,7 +232,11 @@ func (c *Case) modelLine() string {
 	if cb == "" {
 		cb = "-"
 	}
-	return "arr\t" + c.Method + "\t" + toks(c.Recv) + "\t" + toks(c.Args) + "\t" + cb
+	line := "arr\t" + c.Method + "\t" + toks(c.Recv) + "\t" + toks(c.Args) + "\t" + cb
+	if c.Chain != "" {
+		line += "\t" + c.Chain
+	}
+	return line
 }
 
 func canonArr(m string, ret V, recv []V, calls []V) string {
@@ -248,6 +270,9 @@ func canonStr(r sres) string {
 
 // parse what one case printed
 func (c *Case) observe(raw string) string {
+	if c.Kind == "fx" {
+		return c.observeFx(raw)
+	}
 	i := strings.Index(raw, sepRes)
 	if i < 0 {
 		return "no-output"
@@ -549,6 +574,12 @@ func diffPart(impl, want string) string {
 
 // expected answer by the reference, in the driver's canonical form
 func (c *Case) reference() (string, bool) {
+	if c.Kind == "fx" {
+		return c.fxReference()
+	}
+	if c.Kind == "arr" && c.Chain != "" {
+		return c.chainReference()
+	}
 	if c.Kind == "str" {
 		r, ok := jsString(c)
 		if !ok {
@@ -569,7 +600,7 @@ func (c *Case) nontrivial() bool {
 	if c.Kind == "str" {
 		return len(c.RecvS) > 0
 	}
-	return len(c.Recv) > 0 && (len(c.Args) > 0 || c.Cb != "" || mutators[c.Method])
+	return len(c.Recv) > 0 && (len(c.Args) > 0 || c.Cb != "" || mutators[c.Method] || c.Kind == "fx" || c.Chain != "")
 }
 
 // ------------------------------------------------------------ shrinking
@@ -583,6 +614,9 @@ func (c *Case) violates() bool {
 }
 
 func shrink(c *Case) *Case {
+	if c.Kind == "fx" {
+		return shrinkFx(c)
+	}
 	cur := *c
 	for step := 0; step < 60; step++ {
 		progressed := false
@@ -643,6 +677,7 @@ type runner struct {
 	m       *vh.Model
 	pending []*Case
 	known   bool // current stream is the known-findings stream
+	shrinks int  // violating cases shrunk so far (bounded: every shrink re-runs scripts)
 }
 
 func (r *runner) add(cs *Case) {
@@ -676,8 +711,9 @@ func (r *runner) flush() {
 	for i, k := range cs {
 		c.Eval(k.key(), k.nontrivial())
 		c.Hit(k.Kind + ":" + k.Method)
-		if k.Kind == "arr" {
+		if k.Kind == "arr" || k.Kind == "fx" {
 			c.Hit(fmt.Sprintf("arr:len=%d", len(k.Recv)))
+			hitFx(c, k)
 		} else {
 			c.Hit(fmt.Sprintf("str:chars=%d", utf8.RuneCountInString(k.RecvS)))
 			if !isASCII(k.RecvS) {
@@ -692,6 +728,10 @@ func (r *runner) flush() {
 		if mres != nil && i < len(mres) && !k.skipModel {
 			if mres[i] == "unsupported" || strings.HasPrefix(mres[i], "bad-") {
 				c.Hit("model:" + mres[i])
+			} else if k.Kind == "fx" {
+				if mres[i] != fxModelPart(impl[i]) {
+					c.Mismatch(k, fxModelPart(impl[i]), mres[i], "real method vs Model.MethStore (result, receiver, invocations)")
+				}
 			} else if mres[i] != impl[i] {
 				c.Mismatch(k, impl[i], mres[i], "real method vs Model.Meth")
 			}
@@ -713,10 +753,23 @@ func (r *runner) flush() {
 				continue
 			}
 		}
-		s := shrink(k)
+		s := k
+		if r.shrinks < 60 {
+			r.shrinks++
+			s = shrink(k)
+		}
 		got := runCases([]*Case{s})[0]
 		w2, _ := s.reference()
-		sig := s.Kind + ":" + s.Method + ":" + s.shape() + ":" + diffPart(got, w2)
+		if s.Kind == "fx" {
+			sig := "fx:" + s.Method + ":" + s.fxShape() + ":" + fxDiffPart(got, w2)
+			c.Violation(sig, fmt.Sprintf("%s — $x = %s; %s", fxDiffDetail(got, w2), s.recvPHP(), s.fxShow()), s)
+			continue
+		}
+		sh := s.shape()
+		if s.Chain != "" {
+			sh += "->" + s.Chain
+		}
+		sig := s.Kind + ":" + s.Method + ":" + sh + ":" + diffPart(got, w2)
 		call := phpArgs(s.Args)
 		if s.Cb != "" {
 			call = strings.TrimSuffix(s.Cb+", "+call, ", ")
@@ -1043,6 +1096,26 @@ func Run(c *vh.Ctx) {
 		r.enumStr(s, c.Rand)
 	}
 	r.flush()
+	// storage aliasing (alias.go): traced callbacks that read every argument, with effects; chained in-place methods
+	fxLen := c.N(3, 4)
+	for _, special := range []bool{false, true} {
+		for _, recv := range receivers(fxLen, elemPoolSmall) {
+			r.enumFxPlain(recv, true, special)
+		}
+		for _, recv := range idiomRecvs {
+			r.enumFxPlain(recv, true, special)
+		}
+	}
+	for _, recv := range receivers(c.N(2, 3), elemPoolSmall) {
+		r.enumFxEffects(recv)
+	}
+	for _, recv := range [][]V{{Int(3), List(Int(5)), Int(1)}, {Int(3), Int(5), Int(1), Int(4)}, {List(Int(1)), List(Int(1), List(Int(2))), Int(2), Str("a")}} {
+		r.enumFxEffects(recv)
+	}
+	for _, recv := range receivers(3, elemPoolSmall) {
+		r.enumChains(recv)
+	}
+	r.flush()
 	c.Res.Exhaustive = true
 	c.Res.ExhaustiveWhat = fmt.Sprintf("arrays: all receivers of length <= %d over 3 element kinds x all methods x all index-argument tuples x 4 variadic item sets x all named callbacks; strings: all texts of length <= 3 over {a, space, é} x all methods x argument sets", maxLen)
 	// seeded
@@ -1054,10 +1127,16 @@ func Run(c *vh.Ctx) {
 		r.enumStr(randText(c.Rand, 12, i%2 == 1), c.Rand)
 	}
 	r.flush()
+	for i := 0; i < c.N(25000, 500000); i++ {
+		r.add(r.randFx(c.Rand))
+	}
+	r.flush()
 	// the documentation's own examples and past findings (fixed): must hold
 	for _, k := range docExamples() {
 		r.add(k)
 	}
+	// docs/array_methods.md note 2 ("inside the callback `$this` is the array"): not implemented — known finding
+	r.add(&Case{Kind: "fx", Method: "map", Recv: []V{Int(1), Int(2)}, Dec: "this", skipModel: true})
 	// the negation witnesses of Proofs/Properties/C15.lean (C15_str_*_counterexample), replayed on the real code
 	for _, k := range leanWitnesses() {
 		r.add(k)
